@@ -34,6 +34,7 @@ def alias(name: str) -> R:
 ANY = R("any", __module__=K("typing"))
 INT, STR, NONE_T = cls("builtins", "int"), cls("builtins", "str"), cls("builtins", "NoneType")
 USER, NESTED, OTHER = cls("pkg.mod", "User"), cls("pkg.mod", "Outer.Inner"), cls("pkg.other", "Thing")
+DEEP = cls("vendor.db.models.types", "Record")
 
 
 def gen(origin: str, *args: V) -> R:
@@ -78,6 +79,10 @@ class World:
         self.add("pkg.mod", "Outer.Inner", NESTED)
         self.add("pkg.other", "Thing", OTHER)
         self.modules.setdefault("pkg", {})
+        # a class four packages deep (what is missing when an ancestor package goes away is that ancestor, not the leaf)
+        self.add("vendor.db.models.types", "Record", DEEP)
+        for anc in ("vendor", "vendor.db", "vendor.db.models"):
+            self.modules.setdefault(anc, {})
 
     def add(self, module: str, qualname: str, value: Any) -> None:
         self.modules.setdefault(module, {})[qualname] = value
@@ -222,7 +227,11 @@ class CodecScenario:
             name = args[0].v
             if name in self.world.modules:
                 return R("module", name=K(name))
-            st.pending = st.pending or "ModuleNotFoundError"
+            # CPython: ModuleNotFoundError.name is the first component of the dotted path that cannot be found
+            parts = str(name).split(".")
+            missing = next((".".join(parts[:i]) for i in range(1, len(parts) + 1) if ".".join(parts[:i]) not in self.world.modules), str(name))
+            from mtsa.absint import raise_exc
+            raise_exc(st, "ModuleNotFoundError", name=K(missing))
             return U("no module " + str(name))
         if d == "getattr" and len(args) >= 2 and isinstance(args[1], K):
             a, n = args[0], args[1].v
